@@ -8,7 +8,9 @@
    gen_abort_refuses_committing   coordinator abort() returns Err for a Committing transaction before anything is logged
    gen_recover_shape           coordinator recover(): nothing assigns tx.phase before the `match tx.phase`; the Committing and
                                Aborting arms do not assign tx.phase; the Prepared arm assigns Committing only under tx.all_yes()
-   gen_sweeps_keep_decided     TxParticipant::cleanup_stale / recover never touch `decided`"""
+   gen_sweeps_keep_decided     TxParticipant::cleanup_stale / recover never touch `decided`
+   gen_abort_always_remembers  TxParticipant::abort inserts into `decided` before (outside) the `if let Some(tx) = tx` test
+   gen_apply_whole_batch       TxParticipant::apply_operations never leaves its loop early (no break / continue-less return Ok)"""
 import os
 import re
 import sys
@@ -21,7 +23,8 @@ def generate(repo):
     items = {}
     vals = {"gen_commit_needs_prepared": True, "gen_vote_needs_preparing": True, "gen_prepare_writes_store": False,
             "gen_abort_applies_undo": True, "gen_timeouts_spare_committing": True, "gen_participant_remembers": True,
-            "gen_abort_refuses_committing": False, "gen_recover_shape": False, "gen_sweeps_keep_decided": False}
+            "gen_abort_refuses_committing": False, "gen_recover_shape": False, "gen_sweeps_keep_decided": False,
+            "gen_abort_always_remembers": False, "gen_apply_whole_batch": False}
     try:
         src = strip_comments(read(repo, "tensor_chain/src/distributed_tx.rs"))
     except Exception as ex:  # noqa: BLE001
@@ -122,7 +125,22 @@ def generate(repo):
         item("gen_timeouts_spare_committing", timeouts_any)
         item("gen_abort_refuses_committing", abort_refuses)
         item("gen_recover_shape", recover_shape)
+        def abort_always():
+            _, b = find_fn(src, "abort", after=r"impl\s+TxParticipant\b")
+            ins = re.search(r"self\s*\.\s*decided\s*\.\s*write\s*\(\s*\)\s*\.\s*insert\s*\(\s*tx_id\s*\)\s*;", b)
+            test = re.search(r"if\s+let\s+Some\s*\(\s*tx\s*\)\s*=\s*tx\b", b)
+            if not (ins and test and ins.start() < test.start()):
+                return False
+            head = b[:ins.start()]
+            return head.count("{") == head.count("}")      # not nested in any block
+
+        def apply_whole():
+            _, b = find_fn(src, "apply_operations", after=r"impl\s+TxParticipant\b")
+            return not re.search(r"\bbreak\b|return\s+Ok\b", b) and bool(re.search(r"for\s+\w+\s+in\s+operations", b))
+
         item("gen_sweeps_keep_decided", sweeps_keep)
+        item("gen_abort_always_remembers", abort_always)
+        item("gen_apply_whole_batch", apply_whole)
     text = HEADER + "From NV.Common Require Import Base.\n\n" + "".join(
         "Definition %s : bool := %s.\n" % (k, "true" if v else "false") for k, v in vals.items())
     return text, items
